@@ -95,18 +95,36 @@ func TestVerif_C05(t *testing.T) {
 	agg := newAgg()
 	defer agg.flush()
 	defer func() { verifHook = nil; installTracer() }()
+	votePropID = "C05"
+	rapid.Check(t, func(rt *rapid.T) { voteProp(rt, agg) })
+}
+
+var votePropID = "C05"
+
+// stabilityFn is the function-level part of C17 (see TestVerif_C17): the same
+// generated voter states and requests, judged by the stability oracle.
+func stabilityFn(t *testing.T) {
+	agg := newAgg()
+	defer agg.flush()
+	defer func() { verifHook = nil; installTracer() }()
+	votePropID = "C17"
+	defer func() { votePropID = "C05" }()
 	rapid.Check(t, func(rt *rapid.T) { voteProp(rt, agg) })
 }
 
 func voteFailf(rt *rapid.T, trace []string, key, format string, a ...interface{}) {
 	msg := fmt.Sprintf(format, a...)
-	ff := failFile{Property: "C05", Oracle: "votefn", Key: key, Msg: msg, Deciding: true, Trace: trace}
+	oracle := "votefn"
+	if key == "disruptive-vote-request-honoured" {
+		oracle = "stability"
+	}
+	ff := failFile{Property: votePropID, Oracle: oracle, Key: key, Msg: msg, Deciding: true, Trace: trace}
 	p := writeFailFile(ff)
-	emit(map[string]interface{}{"h": "x", "fail": map[string]interface{}{"oracle": "votefn", "key": key, "msg": msg, "deciding": true, "known": knownKeys()[key], "file": p, "n": len(trace)}})
+	emit(map[string]interface{}{"h": "x", "fail": map[string]interface{}{"oracle": oracle, "key": key, "msg": msg, "deciding": true, "known": knownKeys()[key], "file": p, "n": len(trace)}})
 	if knownKeys()[key] {
 		rt.Skip("known finding")
 	}
-	rt.Fatalf("VIOLATION C05 %s: %s\n%v", key, msg, trace)
+	rt.Fatalf("VIOLATION %s %s: %s\n%v", votePropID, key, msg, trace)
 }
 
 func voteProp(rt *rapid.T, agg *aggStats) {
@@ -335,7 +353,17 @@ func voteProp(rt *rapid.T, agg *aggStats) {
 
 			// ---- main line
 			before := v.r.term
+			stable := !q.transfer && v.r.leader != 0 && v.r.leader != q.src && v.r.leader != self && v.r.state == Follower
+			beforeVote, beforeLeader := v.r.votedFor, v.r.leader
 			res, respTerm := v.handle(q)
+			if stable {
+				// C17 stability: a follower that knows a leader refuses a request without
+				// transfer permission from anybody else and does not move
+				agg.classes["stability-judged"]++
+				if res != leaderKnown || v.r.term != before || v.r.votedFor != beforeVote || v.r.leader != beforeLeader {
+					voteFailf(rt, append(trace, fmt.Sprintf("vote%+v -> %s", *q, resultName(res))), "disruptive-vote-request-honoured", "follower (term %d, leader %d, votedFor %d) answered a vote request without transfer permission from %d (term %d) with %s; now term %d votedFor %d leader %d", before, beforeLeader, beforeVote, q.src, q.term, resultName(res), v.r.term, v.r.votedFor, v.r.leader)
+				}
+			}
 			trace = append(trace, fmt.Sprintf("vote%+v -> %s term=%d", *q, resultName(res), respTerm))
 			agg.classes["result-"+resultName(res)]++
 			if respTerm < m.maxTerm || respTerm < before {
